@@ -11,6 +11,17 @@ def _nt_all(r):
     return True
 
 PROPS = {
+    'C01': {
+        'props_files': ['Props/C01.v'],
+        'theorems': ['C01_no_effect', 'C01_only_verified'],
+        'nontrivial': 'histories containing at least one frame that no device authenticates and at least one accepted uplink',
+        'nontrivial_fn': lambda r: 'P[]' in r['impl'] and 'P[' in r['impl'].replace('P[]', ''),
+        'suite_timeout': 1500,
+        'level_text': "Theorem C01_no_effect: for EVERY server state, device population, received byte string (not typed JoinRequest; < 256 bytes) and block cipher: if no registered device with a non-zero NwkSKey and that DevAddr verifies the MIC over exactly the received bytes of an uplink data frame of major 0 - stated with the independent frame layout and RFC 4493 - then the pipeline step is the identity on the whole state and emits nothing. C01_only_verified: an uplink leaves every device whose key did not verify it untouched (rows, nonces, inbox, outbox, buffer entry) and emits nothing for it. The model (decoder, MIC, handler, scheduler, encoder over per-device store state) is tied to the code by driving the REAL pipeline goroutines (gate hooks give exact quiescence) through generated histories of valid frames and every kind of corruption, comparing all emitted downlinks, published payloads and a full dump of the store and output buffer after every event; the extracted spec (spec_decode + ref_mic) judges each event of the implementation.",
+        'level_note': "Trusted: Coq kernel, extraction, harness, gate hooks (add-only, tag verif). SQLite statements are modelled as atomic updates grouped by device EUI (every pipeline statement is keyed by an EUI). The clause 'altered in any bit' holds as 'an alteration that no key verifies has no effect'; that an alteration verifies only with probability 2^-32 is a cryptographic property of CMAC outside any proof over an abstract E. Histories are quiescent (one event handled to completion before the next); concurrent delivery is C03/C09.",
+        'trusted': ['SQLite/database-sql as atomic per-statement updates', 'AES as abstract E (16-byte blocks)'],
+        'assumes': ['frames are at most 255 bytes (LoRa PHY limit); B0 carries len(msg) in one byte'],
+    },
     'C11': {
         'props_files': ['Props/C11.v'],
         'theorems': ['C11_decode_total', 'C11_command_loop_no_panic'],
